@@ -401,3 +401,50 @@ func nilFieldEdges(fn *ssa.Function, field *types.Var) []kit.Edge {
 	}
 	return out
 }
+
+// argParam returns the i-th declared parameter of fn (0-based, receiver excluded).
+func argParam(fn *ssa.Function, i int) ssa.Value {
+	if fn == nil {
+		return nil
+	}
+	if fn.Signature.Recv() != nil {
+		i++
+	}
+	if i < len(fn.Params) {
+		return fn.Params[i]
+	}
+	return nil
+}
+
+// paramOfNamed returns the parameter of fn whose (dereferenced) type is the named type called name.
+func paramOfNamed(fn *ssa.Function, name string) ssa.Value {
+	if fn == nil {
+		return nil
+	}
+	for _, p := range fn.Params {
+		t := p.Type()
+		if pt, ok := t.(*types.Pointer); ok {
+			t = pt.Elem()
+		}
+		if n, ok := t.(*types.Named); ok && n.Obj().Name() == name {
+			return p
+		}
+	}
+	return nil
+}
+
+// fromParam reports whether v is computed from parameter prm (directly or through its closure-captured cell).
+func fromParam(v, prm ssa.Value) bool {
+	if prm == nil {
+		return false
+	}
+	pp := kit.PathOf(prm)
+	return kit.DerivesFrom(v, func(x ssa.Value) bool {
+		if x == prm || kit.IsVar(x, prm) {
+			return true
+		}
+		// a field (of a field ...) of the parameter
+		xp := kit.PathOf(x)
+		return xp == pp || strings.HasPrefix(xp, pp+".")
+	})
+}
